@@ -87,7 +87,9 @@ def run (args : List Str) : String × String × String :=
       let m := match parse t with
         | none => "err"
         | some j => match unmarshalDataValue j with | some x => "ok:" ++ encField (render x) | none => "err"
-      (m, "-", if m = "err" then "udv-err" else "udv-ok")
+      -- the protocol defines it outright: an object is a data value wrapper (its `data` member), a bare
+      -- array is not a value, anything else is itself — whatever whitespace surrounds the text
+      (m, m, if m = "err" then "udv-err" else "udv-ok")
     else if c = str "val" then
       match parse t with
       | none => ("err", "err", "val-notjson")
